@@ -69,7 +69,8 @@ def run_conversation(rec, case):
     rng = gen.mkrng('c09', case['seed'], case['i'])
     kind = rng.choice('TA')
     transport = rng.choice(['polling', 'websocket', 'upgrade'])
-    probe = rng.choice(['ok', 'ok', 'wrong', 'silent', 'refuse']) \
+    probe = rng.choice(['ok', 'ok', 'wrong', 'silent', 'refuse',
+                        'upgrade-write-fails']) \
         if transport == 'upgrade' else 'ok'
     rec.evaluations += 1
     script = {'pi': PI, 'pt': PT}
@@ -123,7 +124,8 @@ def run_conversation(rec, case):
             return
         if transport == 'upgrade':
             fr = [f['frame'] for f in srv.frames]
-            if probe in ('ok', 'wrong', 'silent') and fr[:1] != ['2probe']:
+            if probe in ('ok', 'wrong', 'silent', 'upgrade-write-fails') \
+                    and fr[:1] != ['2probe']:
                 V('upgrade-without-probe', 'first frame on the upgrade socket '
                   'is %r' % (fr[:1],))
             if probe == 'ok' and fr[:2] != ['2probe', '5']:
